@@ -14,6 +14,9 @@ Theorem C16_rank_extended : forall fin Cinf0 w, zrank_of (fin ++ [Cinf0]) w = if
 Proof. exact zrank_of_ext. Qed.
 Theorem C16_finite_ranks_below_top : forall fin w, kz world fin w <= length fin.
 Proof. exact finite_ranks_below_top. Qed.
+Theorem C16_top_rank_exactly_infeasible : forall fin Cinf0 w, zrank_of (fin ++ [Cinf0]) w = S (length fin) <-> nofals world Cinf0 w = false.
+Proof. exact top_rank_iff_infeasible. Qed.
+Print Assumptions C16_top_rank_exactly_infeasible.
 Print Assumptions C16_rank_extended. Print Assumptions C16_finite_ranks_below_top.
 
 (* whichever worlds are ranked first, lazily, forced or all at once: for every operation sequence every output is the
